@@ -438,9 +438,9 @@ func spaces(tier string) []kit.Space {
 			space("3-multi-file", aspect, multi, true, slots),
 			space("4-corpus", aspect, corpus, true, slots),
 		)
-		sps = append(sps, space("5-type-checked", aspect, astgen.Typed(), true, slots))
+		sps = append(sps, space("5-type-checked", aspect, astgen.Typed(), true, slots), handBuiltSpace(aspect))
 	}
-	return sps
+	return append(sps, concurrentSpace(tier))
 }
 
 func main() {
